@@ -244,10 +244,7 @@ namespace Givaro {
     (Integer& a, Integer& b, const Integer& x, const Integer& m,
      const Integer& a_bound, const Integer& b_bound) {
         const Integer bb(b_bound); // a or b may be the same object as b_bound
-        Integer bound = x/bb;
-        bool res = ratrecon(a,b,x,m,
-                            (bound>a_bound?bound:a_bound),
-                            true, false);
+        bool res = ratrecon(a,b,x,m,a_bound,true,false); // |a| < a_bound
         return res && (b <= bb);
     }
 
